@@ -50,6 +50,7 @@ def main(tier):
     chk.rule("USE", "whoever inspects an Orchard-family builder's contents consults every list that "
              "the builder's adders fill", floor=2)
     chk.rule("SIGN", "the signed input is the one committed to", floor=5)
+    chk.rule("ROLE", "bundle-shape calculators get spends as spends and outputs as outputs", floor=16)
     chk.rule("control", "positive controls", floor=1)
     ps_rules.ps1(chk, FILES)
     ps_rules.ps2(chk, FILES)
@@ -70,7 +71,116 @@ def main(tier):
     deferred_sum(chk, w)
     sign(chk, w)
     content_lists(chk, w, scope)
+    multisig_order(chk, w)
+    w2 = zf.World(extract.facts_dir("all"), ["zcash_primitives", "zcash_client_backend"])
+    chk.analysed["role_sites"] = bundle_shape_roles(chk, w2)
     chk.finish()
+
+
+# the external bundle-shape calculators (signatures read from the vendored sapling-crypto 0.7 /
+# orchard 0.15 sources): roles of the call's operands, receiver included
+ROLE_SIG = {
+    r"sapling_crypto::builder::BundleType::num_outputs$": (None, "spends", "outputs"),
+    r"sapling_crypto::builder::BundleType::num_spends$": (None, "spends"),
+    r"orchard::builder::BundleType::num_actions$": (None, None, "spends", "outputs"),
+}
+
+
+def _roles(txt):
+    out = set()
+    if re.search(r"\boutputs?\(|_outputs?\b|\boutputs?\b", txt):
+        out.add("outputs")
+    if re.search(r"\b(inputs|spends)\(|_(spends|inputs)\b|\b(spends|inputs)\b", txt):
+        out.add("spends")
+    return out
+
+
+def bundle_shape_roles(chk, w):
+    """The padded output / action counts the fee is computed for come from the bundle-shape
+    calculators, which take (requested spends, requested outputs): a count of outputs handed in as
+    the spends (or the other way round) prices a different transaction."""
+    n = 0
+    for f in sorted(w.fns.values(), key=lambda f: f.p):
+        root = w.fns.get(f.root) if f.is_closure() else f
+        if root is None or "::tests::" in root.p or "::testing" in root.p:
+            continue
+        if not (root.p.startswith("zcash_primitives::transaction::builder::") or
+                "zcash_client_backend::fees::" in root.p):
+            continue
+        b = f.body
+        du = None
+        ordn = {}
+        for bb, t in b.calls():
+            if b.blocks[bb].cleanup or t.callee.indirect is not None:
+                continue
+            sig = next((v for rx, v in ROLE_SIG.items() if re.search(rx, t.callee.target_p())), None)
+            g = w.fns.get(t.callee.target_id())
+            if sig is None and g is not None and not g.is_closure() and g.argnames and \
+                    re.search(r"(action_count|num_actions|num_outputs|num_spends)$", g.p):
+                rs = [(_roles(nm or "") if nm else set()) for nm in g.argnames]
+                sig = tuple(next(iter(r)) if len(r) == 1 else None for r in rs)
+                if not any(sig):
+                    sig = None
+            if sig is None:
+                continue
+            du = du or defuse.DefUse(b)
+            args = t.args
+            k0 = "%s/%s" % (f.p.replace("zcash_primitives::transaction::builder::", ""), t.callee.target_p().rsplit("::", 1)[-1])
+            ordn[k0] = ordn.get(k0, 0) + 1
+            for i, want in enumerate(sig):
+                if want is None or i >= len(args):
+                    continue
+                a = args[i]
+                txt = defuse.show(du.origin(a))
+                if a.kind in ("copy", "move") and not a.place.proj and b.local_name(a.place.local):
+                    txt += " " + b.local_name(a.place.local)
+                # a named local in the chain
+                r = du.root_local(a.place) if a.kind in ("copy", "move") else None
+                if r and b.local_name(r[1]):
+                    txt += " " + b.local_name(r[1])
+                got = _roles(txt)
+                n += 1
+                if got and got != {want}:
+                    chk.fail("ROLE", "%s#%d/%s" % (k0, ordn[k0], want), "%s is given %s as its requested %s: %s"
+                             % (t.callee.target_p().rsplit("::", 1)[-1], " and ".join(sorted(got)), want, txt[:120]),
+                             t.span.loc())
+                else:
+                    chk.ok("ROLE", "%s: the requested %s are %s" % (k0, want, txt[:70]), sample=(n == 1))
+    return n
+
+
+def multisig_order(chk, w):
+    """OP_CHECKMULTISIG consumes signatures in the order of the redeem script's public keys: the loop
+    that signs a P2SH multisig input walks the script's pubkeys (looking each up in the signing set),
+    not the signing set."""
+    fs = [g for g in w.fns.values() if "zcash_transparent::builder" in g.p and "apply_signatures" in g.p]
+    n = 0
+    for g in fs:
+        b = g.body
+        du = None
+        nexts = [(bb, t) for bb, t in b.calls() if not b.blocks[bb].cleanup and t.callee.indirect is None and
+                 re.search(r"Iterator>?::next$", t.callee.target_p())]
+        for bb, t in b.calls():
+            if b.blocks[bb].cleanup or t.callee.indirect is not None or not t.callee.target_p().endswith("::sign_ecdsa"):
+                continue
+            loops = []
+            for nb, nt in nexts:
+                if bb in b.reachable(nb) and nb in b.reachable(bb):
+                    loops.append((nb, nt))
+            if not loops:
+                continue            # a single signature (P2PKH)
+            du = du or defuse.DefUse(b)
+            n += 1
+            srcs = [defuse.show(du.origin(nt.args[0])) for _nb, nt in loops]
+            if len(srcs) == 1 and re.search(r"as MultiSig\)\.pubkeys\)?$", srcs[0]):
+                chk.ok("SIGN", "multisig signatures are produced in a loop over the redeem script's pubkeys "
+                       "(script order)", sample=True)
+            else:
+                chk.fail("SIGN", "multisig-order", "the multisig signing loop iterates %s instead of the redeem script's "
+                         "pubkeys: signatures come out in another order than OP_CHECKMULTISIG consumes them"
+                         % [x[:90] for x in srcs], t.span.loc())
+    if n == 0:
+        chk.fail("SIGN", "multisig-order/missing", "no looped signing site found in apply_signatures")
 
 
 def guard(chk, w, f):
